@@ -5,7 +5,7 @@ import CoapVerif.Spec.Quiescence
 Driver for C13.
 `model`: translates a history line into events of `Model.Tables` (sites looked up by name in the generated
 shape), ends every exchange, runs housekeeping past every deadline and prints the final sizes the model is left with
-(`final:tok,mid,cache,lock,bwR,bwS,obs,lim`) — by `quiescent_empty` nothing but live observations.
+(`final:tok,mid,cache,lock,bwR,bwS,obs,lim,rmid`) — by `quiescent_empty` nothing but live observations.
 `judge`: `<history> | <observed line>` → `ok` / `violates <clause>` by `Spec.Quiescence.judge`.
 `classes`: prints the class of every table (from the generated shape), for the evidence file.
 -/
@@ -37,9 +37,9 @@ def mentions (id : String) (f : List String) : Bool :=
   | _ => false
 
 /-- the registration of observation `id` (deadline `dl` seconds, 0 = none) succeeds iff the first op about it — before
-    its deadline has passed in virtual time, before `end`/`close` — is a small 2.05/2.03 response (piggybacked on the
-    datagram transport); it is live iff that response carries an Observe option -/
-def obsOutcome (udp : Bool) (id : String) (dl : Nat) (rest : List (List String)) : Bool × Bool :=   -- (call ok, live)
+    its deadline has passed in virtual time, before `end`/`close` — is a small 2.05/2.03 response (piggybacked or
+    separate); it is live iff that response carries an Observe option -/
+def obsOutcome (_udp : Bool) (id : String) (dl : Nat) (rest : List (List String)) : Bool × Bool :=   -- (call ok, live)
   let rec go (elapsed : Nat) : List (List String) → Bool × Bool
     | [] => (false, false)
     | f :: fs =>
@@ -48,11 +48,12 @@ def obsOutcome (udp : Bool) (id : String) (dl : Nat) (rest : List (List String))
       | ["sleep", ms] => go (elapsed + ms.toNat?.getD 0) fs
       | ["end"] => (false, false)
       | ["close"] => (false, false)
-      | ["resp", i, kind, code, blen, seq] =>
+      | ["resp", i, _kind, code, blen, seq] =>
         if i != id then go elapsed fs else
         let okCode := code == "69" || code == "67"
-        let direct := !udp || kind == "pig"
-        if okCode && direct && (blen.toNat?.getD 99) ≤ 16 then (true, seq != "-") else (false, false)
+        -- (since the repair of F42 a separate response — `non` / `con`, before the acknowledgement — ends the registration
+        -- call as a piggybacked one does: `Conn.handle` acknowledges the request by the response's token)
+        if okCode && (blen.toNat?.getD 99) ≤ 16 then (true, seq != "-") else (false, false)
       | _ => if mentions id f then (false, false) else go elapsed fs
   go 0 rest
 
@@ -70,12 +71,14 @@ def events (udp bw : Bool) (ops : List (List String)) : List TEvent := Id.run do
       evs := evs ++ [.insert (siteOf "LimitParallelRequests.acquireEndpoint" "endpointQueues") (strKey path) id 0]
       if bw then evs := evs ++ [.insert (siteOf "BlockWise.Do" "sendingMessagesCache") tk id 3]
       evs := evs ++ [.insert (siteOf "Conn.doInternal" "tokenHandlerContainer") tk id 0]
-      if udp && typ == "con" then evs := evs ++ [.insert (siteOf "Conn.prepareWriteMessage" "midHandlerContainer") (100000 + id) id 0]
+      if udp && typ == "con" then evs := evs ++ [.insert (siteOf "Conn.prepareWriteMessage" "midHandlerContainer") (100000 + id) id 0,
+                                                 .insert (siteOf "Conn.writeMessage" "requestMessageIDs") tk id 0]
     | ["obs", ids, path, _dl] =>
       let id := ids.toNat?.getD 0
       evs := evs ++ [.insert (siteOf "LimitParallelRequests.acquireEndpoint" "endpointQueues") (strKey path) id 0,
                      .insert (siteOf "Handler.NewObservation" "observations") id id 0]
-      if udp then evs := evs ++ [.insert (siteOf "Conn.prepareWriteMessage" "midHandlerContainer") (100000 + id) id 0]
+      if udp then evs := evs ++ [.insert (siteOf "Conn.prepareWriteMessage" "midHandlerContainer") (100000 + id) id 0,
+                                 .insert (siteOf "Conn.writeMessage" "requestMessageIDs") id id 0]
       let (ok, live) := obsOutcome udp ids (_dl.toNat?.getD 0) rest
       evs := evs ++ [.finish id ok]
       if ok && !live then evs := evs ++ [.cancelLive id]     -- the peer does not support observe: cleaned up at once
@@ -100,7 +103,8 @@ def events (udp bw : Bool) (ops : List (List String)) : List TEvent := Id.run do
     | ["write", id, typ] =>
       let id := id.toNat?.getD 0
       owners := id :: owners
-      if udp && typ == "con" then evs := evs ++ [.insert (siteOf "Conn.prepareWriteMessage" "midHandlerContainer") (100000 + id) id 0]
+      if udp && typ == "con" then evs := evs ++ [.insert (siteOf "Conn.prepareWriteMessage" "midHandlerContainer") (100000 + id) id 0,
+                                                 .insert (siteOf "Conn.writeMessage" "requestMessageIDs") id id 0]
     | ["req", n, typ, rlen] =>
       let n := n.toNat?.getD 0
       if udp && typ == "con" then evs := evs ++ [.insert (siteOf "messageCache.Store" "c") (50000 + n) (300000 + n) 247]
@@ -121,7 +125,7 @@ def events (udp bw : Bool) (ops : List (List String)) : List TEvent := Id.run do
 
 def finalSizes (s : TState) : String :=
   let t := tableSize s
-  s!"final:{t "tokenHandlerContainer"},{t "midHandlerContainer"},{t "c"},{t "ma"},{t "receivingMessagesCache"},{t "sendingMessagesCache"},{t "observations"},{t "endpointQueues"}"
+  s!"final:{t "tokenHandlerContainer"},{t "midHandlerContainer"},{t "c"},{t "ma"},{t "receivingMessagesCache"},{t "sendingMessagesCache"},{t "observations"},{t "endpointQueues"},{t "requestMessageIDs"}"
 
 def model (line : String) : String :=
   match words line with
@@ -136,8 +140,8 @@ def parsePoint (seg : String) : Option (Sizes × Live) :=
   match seg.splitOn "/" with
   | [a, b] =>
     match (a.splitOn ",").map (·.toNat?), (b.splitOn ",").map (·.toNat?) with
-    | [some t, some m, some c, some l, some br, some bs, some o, some q], [some ca, some pi, some wr, some lo] =>
-      some (⟨t, m, c, l, br, bs, o, q⟩, ⟨ca, pi, wr, lo⟩)
+    | [some t, some m, some c, some l, some br, some bs, some o, some q, some r], [some ca, some pi, some wr, some lo] =>
+      some (⟨t, m, c, l, br, bs, o, q, r⟩, ⟨ca, pi, wr, lo⟩)
     | _, _ => none
   | _ => none
 
@@ -183,7 +187,7 @@ def judgeLine (line : String) : String :=
 
 def classes : String :=
   let names := ["tokenHandlerContainer", "midHandlerContainer", "c", "ma", "receivingMessagesCache", "sendingMessagesCache",
-    "observations", "endpointQueues", "multicastRequests", "multicastHandler"]
+    "observations", "endpointQueues", "requestMessageIDs", "multicastRequests", "multicastHandler"]
   String.intercalate " " (names.map fun n =>
     let cls := (sites.filter (·.table == n)).map (fun s => match classify s.removal with
       | some .bracket => "bracket" | some .handle => "handle" | some .expiring => "expiring" | some .bracketExpiring => "bracket+expiring"
